@@ -9,7 +9,7 @@ SPEC = {
              'leaf parts <= capacity, level() == stored leaf parts, departures are a prefix of the stored order, '
              'no departure before arrival + minimum delay (== on the dyadic grid; a second leg with decimal, not exactly representable times and a 4-ulp tolerance); a case is one model; '
              'non-trivial = a buffer was full at least once and a head part waited for its downstream; also: rework loops buffer -> gate -> same buffer, user-defined Batch subclasses, deciders failing in the middle of a multi-part release, long-history models'),
-    'floors': {'quick': {'buffer_checks': 50000, 'buffer_departures': 5000,
+    'floors': {'quick': {'buffer_checks': 50000, 'buffer_departures': 3000,
                          'buffer_departures_after_waiting_for_downstream': 500, 'decimal_buffer_departures': 2000},
                'thorough': {'buffer_checks': 1000000, 'buffer_departures': 100000,
                             'buffer_departures_after_waiting_for_downstream': 10000}},
